@@ -332,8 +332,22 @@ class OsShim:
         return getattr(os, name)
 
 
+def _wrap_compiled(mod):
+    """module-level re.compile(...) objects were created before the shim was in place: replace them by the symbolic matcher"""
+    n = 0
+    for name, val in list(vars(mod).items()):
+        if isinstance(val, _re.Pattern):
+            flags = val.flags & ~_re.UNICODE
+            setattr(mod, name, Pattern(val.pattern, flags))
+            n += 1
+    return n
+
+
 def install_text(casing_mod=None, importing_mod=None):
     out = []
+    for m in (casing_mod, importing_mod):
+        if m is not None and _wrap_compiled(m):
+            out.append("%s: module-level compiled patterns -> symbolic regex matcher" % m.__name__)
     if casing_mod is not None:
         casing_mod.re = ReShim()
         casing_mod.keyword = KwShim()
